@@ -201,9 +201,10 @@ func genGraph(r *Rng, k, n int, inc [][]bool, rich bool) *graphCase {
 				}
 			}
 		}
+		dens := []int{22, 22, 45, 70}[r.Intn(4)] // some deep module chains (distance side-channel)
 		for j := 0; j < n; j++ {
 			for j2 := j + 1; j2 < n; j2++ {
-				if r.Chance(22) {
+				if r.Chance(dens) {
 					addStmt(k+j+1, k+j2+1)
 				}
 			}
@@ -232,6 +233,65 @@ func genGraph(r *Rng, k, n int, inc [][]bool, rich bool) *graphCase {
 	}
 	g.prune()
 	g.fill(r)
+	return g
+}
+
+// shared leaf modules reached from every entry point through private chains of
+// different lengths: the leaves share one chunk and are mutually independent,
+// so their order in the chunk is decided by DistanceFromEntryPoint and the
+// stable source index
+func genDistance(r *Rng) *graphCase {
+	g := &graphCase{}
+	k := 2 + r.Intn(2)
+	t := 2 + r.Intn(2)
+	type chain struct{ e, s, l int }
+	var chains []chain
+	nInter := 0
+	for s := 0; s < t; s++ {
+		for e := 0; e < k; e++ {
+			l := r.Intn(4)
+			if l == 3 {
+				l = 2
+			}
+			chains = append(chains, chain{e, s, l})
+			nInter += l
+		}
+	}
+	for i := 0; i < k; i++ {
+		g.mods = append(g.mods, &mod{id: i + 1, name: fmt.Sprintf("e%d", i), user: true, varKW: "let"})
+		g.user = append(g.user, i+1)
+	}
+	for i := 0; i < nInter; i++ {
+		g.mods = append(g.mods, &mod{id: k + i + 1, name: fmt.Sprintf("p%d", i), varKW: "let"})
+	}
+	for s := 0; s < t; s++ {
+		g.mods = append(g.mods, &mod{id: k + nInter + s + 1, name: fmt.Sprintf("s%d", s), varKW: "var"})
+	}
+	next := k + 1
+	kinds := []int{kBare, kNamed, kNamed}
+	for _, c := range chains {
+		from := c.e + 1
+		for i := 0; i < c.l; i++ {
+			g.m(from).stmts = append(g.m(from).stmts, stmt{kind: kinds[r.Intn(3)], target: next})
+			if i == 1 && r.Chance(60) {
+				// shortcut: the entry also imports the second intermediate directly, so the
+				// same entry point may reach it twice, the second time on a shorter path
+				g.m(c.e+1).stmts = append(g.m(c.e+1).stmts, stmt{kind: kBare, target: next})
+			}
+			from = next
+			next++
+		}
+		g.m(from).stmts = append(g.m(from).stmts, stmt{kind: kinds[r.Intn(3)], target: k + nInter + c.s + 1})
+	}
+	for _, m := range g.mods {
+		for i := len(m.stmts) - 1; i > 0; i-- {
+			j := r.Intn(i + 1)
+			m.stmts[i], m.stmts[j] = m.stmts[j], m.stmts[i]
+		}
+	}
+	g.prune()
+	g.fill(r)
+	g.desc = fmt.Sprintf("distance k=%d leaves=%d", k, t)
 	return g
 }
 
@@ -1332,6 +1392,17 @@ func runC10(seed uint64, n int, tier string, outDir string) []*Stats {
 			stS.Fail("splitting build of a valid module graph fails", g.describe(cfg, true), b.errs, "no errors")
 			return
 		}
+		for _, e := range g.user {
+			found := false
+			for _, c := range b.chunks {
+				if c.entry == e {
+					found = true
+				}
+			}
+			if !found {
+				stS.Fail("entry point has no output chunk", g.describe(cfg, true), "no output with entryPoint "+g.m(e).name+".js", "one output per entry point")
+			}
+		}
 		obs, problem := b.coqObs()
 		if problem != "" {
 			stS.Fail("emitted chunks reference a chunk that does not exist", g.describe(cfg, true), problem, "every imported path is an output")
@@ -1391,7 +1462,7 @@ func runC10(seed uint64, n int, tier string, outDir string) []*Stats {
 		if r.Chance(8) {
 			k = 4
 		}
-		nm := 1 + r.Intn(5)
+		nm := 1 + r.Intn(6)
 		inc := make([][]bool, k)
 		for a := range inc {
 			inc[a] = make([]bool, nm)
@@ -1402,6 +1473,14 @@ func runC10(seed uint64, n int, tier string, outDir string) []*Stats {
 		g := genGraph(r, k, nm, inc, true)
 		g.desc = fmt.Sprintf("rich k=%d modules=%d", k, nm)
 		handle(g, randCfg(r), true, true)
+	}
+	// (1b) shared leaves at different distances
+	nDist := 12
+	if tier == "thorough" {
+		nDist = n / 2
+	}
+	for i := 0; i < nDist; i++ {
+		handle(genDistance(r), buildCfg{MinifyIdent: i%4 == 3}, true, i%3 == 0)
 	}
 	// (2) incidence patterns: bounded-exhaustive in the thorough tier, sampled in quick
 	// A pattern is a k x n incidence matrix; column j (a subset of the entry
